@@ -90,7 +90,13 @@ pub fn none_endpoint() -> EndpointDescription {
         server_certificate: ByteString::null(),
         security_mode: MessageSecurityMode::None,
         security_policy_uri: UAString::from(SecurityPolicy::None.to_uri()),
-        user_identity_tokens: None,
+        user_identity_tokens: Some(vec![UserTokenPolicy {
+            policy_id: UAString::from("anonymous"),
+            token_type: UserTokenType::Anonymous,
+            issued_token_type: UAString::null(),
+            issuer_endpoint_url: UAString::null(),
+            security_policy_uri: UAString::null(),
+        }]),
         transport_profile_uri: UAString::null(),
         security_level: 0,
     }
